@@ -120,6 +120,10 @@ _p(
     trusted_base=SMT + NN + ["recording contracts for unit_scaling.functional ops (their own contracts: C01/C02/C05)", "contract of unit_scaling.parameter.Parameter (verified against its body under C09)"],
     assumptions=[A7, "torch.nn base-class constructors set the attributes listed in pyvc/nnmodel.py and nn.Linear/_ConvNd.__init__ call the virtual reset_parameters (assumed, validated at run time)", "the clause 'matches the same-named torch.nn module up to the scalars of C01/C02' is the corollary module == U.fn (proved here), U.fn == k * F.fn (C01), nn.Module.forward == F.fn on its attributes (assumed)", "einops.rearrange is an uninterpreted re-indexing"],
     components=[comp.validators(["nn"])],
+    # "each option is honoured in the forward AND backward computation ... matches torch.nn up to the
+    # scalars of C01/C02": the functional contracts the modules delegate to are part of this property
+    extra_jobs=lambda j: j.key.startswith("op:") and j.cfg.get("constraint", None) is None,
+    extra_prefixes=["C01:", "C02:"],
     explanation="For every module class and every discrete configuration (bias on/off, padding mode, affine flags) with all other constructor arguments symbolic: forward is exactly one call of the corresponding unit_scaling.functional op whose every bound argument IS the module's own parameter / the constructor's option (or construction raises ValueError for a non-default unsupported option); fresh modules hold exactly the expected parameters, each produced by unit_scaling.Parameter with the expected mup_type, depth None and initial state N(0,1) / zeros / ones; depth containers tag every parameter with len(self) and refuse untagged ones (loop invariant); composite modules route every option to the consuming call.",
 )
 
